@@ -39,6 +39,8 @@ def seq_scenario(seq, mode="folder", nested=False, alter=None, restore=None, see
                 op["sf_raw"] = ["s/../a.txt", "./s//b.txt", "s_proxy/./d.txt"]
             elif (seed + i) % 3 == 0:
                 op["spell"] = "symlink"
+            elif (seed + i) % 4 == 2:
+                op["sf_rel"] = ["base", "root", "sub"][(seed + i) % 3]
         ops.append(op)
     return {"root": "root", "tree": tree, "ops": ops, "c04": {"seq": seq, "mode": mode, "nested": nested, "alter": alter, "restore": restore, "twin": twin, "casetwin": casetwin}}
 
@@ -166,6 +168,7 @@ def run(ctx):
     for md in ("folder", "sf"):
         for nst in (False, True):
             scs.append(seq_scenario([["md5"], ["md5", "sha1"], ["xxh64"]], mode=md, nested=nst, casetwin=1))
+        scs.append(seq_scenario([["xxh64", "xxh64"], ["xxh64"], ["md5", "sha1", "md5"], ["md5", "sha1"]], mode=md))
     if ctx.thorough:
         # all 63 x 63 two-generation sequences (folder mode), plus sampled variants
         for a in SUBSETS:
@@ -177,6 +180,10 @@ def run(ctx):
     for _ in range(extra):
         n = rnd.choice([2, 2, 3, 3, 4, 5])
         seq = [rnd.choice(SUBSETS) if rnd.random() < 0.8 else rnd.sample(FORMATS, rnd.randint(1, 2)) for _ in range(n)]
+        if rnd.random() < 0.2:
+            # a format named twice on one command line
+            k_ = rnd.randrange(n)
+            seq[k_] = list(seq[k_]) + [rnd.choice(seq[k_])]
         alter = restore = None
         r = rnd.random()
         if r < 0.35:
